@@ -119,6 +119,8 @@ def _run_all(ctx, e, u, op, site, fails, outs):
             outs["exit"] = outs.get("exit", 0) + 1
             continue
         outcome, where, owner = c
+        if outcome == "asan:stack-overflow":
+            outcome = "segv"       # the same event as on the plain build (unbounded recursion), named alike in signatures
         if where == "unknown":     # no usable trace (plain build, or an in-process run that caught the signal): repeat in a forked ASan copy
             c2 = toolrun.locate(ctx, tool, args)
             if c2:
